@@ -40,6 +40,7 @@ func isSubresourceCreate(in ssa.Instruction, sub string) bool {
 func runC11(c *Ctx) {
 	runC11ClaimFill(c)
 	runC11LabelRemoval(c)
+	runC11ImmediateDelete(c)
 	borrow(c, "O7", "C17", "O2", "paired with ReleaseMutex", "a failed reservation step must not leave the group mutex held: the rollback of the same attempt would block forever and the request would never be reported failed")
 	borrow(c, "O6", "C17", "O5", "label patch is applied through", "rollback removes the labels it sees on the reconciler's pod object")
 
@@ -494,4 +495,38 @@ func runC11LabelRemoval(c *Ctx) {
 			"the GPU-group labels are removed with a JSON patch built from the in-memory pod (type "+kind+"): when one of those labels never reached the API server (its own patch failed) the whole patch is rejected and the labels that did reach it stay — the reservation pod keeps holding a GPU for a pod that was never bound")
 	}
 	c.Floor("O9", "CONST label-removal patches", n, 1)
+}
+
+// C11-O10 (CONST): a reservation pod is deleted at once. Rollback of a failed fractional bind deletes the reservation
+// pod it created; the retry that follows looks the group's reservation pod up by label. With a graceful delete the pod
+// is merely Terminating and still listed with its GPU index: the retry adopts it, the bind "succeeds", the pod
+// disappears seconds later, and the next sync deletes the bound pod as a consumer without reservation.
+// deleteReservationPod passes GracePeriodSeconds(0).
+func runC11ImmediateDelete(c *Ctx) {
+	fn := c.Anchor("O10", pkgResv, "service", "deleteReservationPod")
+	if fn == nil {
+		return
+	}
+	n := 0
+	for _, in := range instrsIn(fn, isInvokeNamed("Delete")) {
+		n++
+		zeroGrace := false
+		for _, a := range in.(ssa.CallInstruction).Common().Args {
+			for _, src := range valueSources(a, 5) {
+				if strings.HasSuffix(typeKey(src.Type()), "client.GracePeriodSeconds") {
+					if k, ok := src.(*ssa.Const); ok && k.Value != nil && k.Value.ExactString() == "0" {
+						zeroGrace = true
+					}
+					if cv, ok := src.(*ssa.Convert); ok {
+						if k, ok := cv.X.(*ssa.Const); ok && k.Value != nil && k.Value.ExactString() == "0" {
+							zeroGrace = true
+						}
+					}
+				}
+			}
+		}
+		c.Check(zeroGrace, "O10", "CONST", funcKey(fn)+": the reservation pod is deleted with grace period 0", instrPos(in), "client.GracePeriodSeconds(0)",
+			"the reservation pod is deleted gracefully: it stays listed (Terminating, with its GPU index) while the retry of the failed bind looks the group's reservation pod up, is adopted, and vanishes after the pod was bound")
+	}
+	c.Floor("O10", "CONST reservation pod deletions", n, 1)
 }
